@@ -135,6 +135,8 @@ class Run:
             return 'skipped'
         kwargs = dict(call.kwargs)
         method = call.method
+        if call.note is not None and call.note[0] == 'bad':
+            return self.bad_step(i, call, method, kwargs)
         if method == 'add_fp':
             fp = self._content_fp(call.blob)
             args = (fp, call.blob.length)
@@ -183,6 +185,29 @@ class Run:
         elif method == 'rm_hard_link' and call.blob is not None and call.blob.length == 0:
             self.zero_sync(call)
         return 'applied'
+
+    def bad_step(self, i, call, method, kwargs):
+        """A call from the refusal catalogue (C14): it must raise; the model is left untouched."""
+        if not hasattr(self, 'bad_results'):
+            self.bad_results = []
+        args = ()
+        if '__content__' in kwargs:
+            bid, ln = kwargs.pop('__content__')
+            data = content(100000 + bid, ln)
+            fp = io.BytesIO(data)
+            self.fps.append(fp)
+            args = (fp, ln)
+        try:
+            getattr(self.iso, method)(*args, **kwargs)
+        except pex.PyCdlibException as e:
+            self.bad_results.append((i, call.note[1], call.note[2], 'refused:' + type(e).__name__, str(e)[:120]))
+            return 'bad-refused'
+        except Exception as e:  # noqa
+            self.bad_results.append((i, call.note[1], call.note[2], 'raised:' + exc_signature(e), str(e)[:120]))
+            return 'bad-refused'
+        self.bad_results.append((i, call.note[1], call.note[2], 'accepted', ''))
+        self.dead = True        # the twin comparison is void: whether it should have been refused is C13's business
+        return 'bad-accepted'
 
     # After a reopen the library gives all zero-length files and symlinks one shared inode,
     # and documents that zero-byte removal "may need to be called more than once".  The
